@@ -68,8 +68,7 @@ func (ex *Exec) call(in ssa.Instruction, c *ssa.CallCommon) Val {
 	if c.IsInvoke() {
 		recv := ex.val(c.Value)
 		ex.oblige("nil", ex.curPC, fmt.Sprintf("(not (= (i_tag %s) 0))", recv.E), pos, "invoke on nil interface")
-		key := ifaceMethodKey(c.Value.Type(), c.Method)
-		fc := ex.eng.CS.Funcs[key]
+		key, fc := ex.eng.ifaceContract(c.Value.Type(), c.Method)
 		if fc == nil {
 			ex.eng.missing(key, ex.position(pos))
 			return ex.havocResult(rt)
